@@ -12,6 +12,6 @@ PROP = dict(
 )
 META = dict(
     technique="Lean 4 proof about a model of the tscreen.go input parser against an independent xterm mouse-protocol specification + differential correspondence through the verif parser hook",
-    text="Tcell.Props.C12 proves, for every button code, coordinate (any sign, any number of digits), final and introducer, that an SGR report decodes to exactly one event with the specified position, modifiers and buttons, and that arbitrary report sequences follow the press/drag/release machine (release and unheld motion buttonless, drag keeps the button). For legacy X11 reports it proves exactly which codes the pinned tree decodes wrongly (motion 32..63: drag reported as wheel / right-drag loses its button) and that the repaired variant satisfies the specification. The engine `parse` feeds all 256 codes x finals x introducers x coordinate classes, all X11 button bytes, random report sequences and mixed token strings (whole and partitioned) to the real parser and to the model, and an independent Go decoder checks the statement on the real events. hwheel_not_a_button: a wheel-left/right report (xterm codes 66/67, any modifiers and press state) yields no button; the oracle demands that such a report claims none of the statement's five masks (class mouse-hwheel-misreported).",
+    text="Tcell.Props.C12 proves, for every button code, coordinate (any sign, any number of digits), final and introducer, that an SGR report decodes to exactly one event with the specified position, modifiers and buttons, and that arbitrary report sequences follow the press/drag/release machine (release and unheld motion buttonless, drag keeps the button). For legacy X11 reports it proves exactly which codes the pinned tree decodes wrongly (motion 32..63: drag reported as wheel / right-drag loses its button) and that the repaired variant satisfies the specification. The engine `parse` feeds all 256 codes x finals x introducers x coordinate classes, all X11 button bytes, random report sequences and mixed token strings (whole and partitioned) to the real parser and to the model, and an independent Go decoder checks the statement on the real events; streams in which a report is preceded by lone ESC bytes (Esc key / Alt prefix typed just before: same read, a read of its own, boundary inside the report; no timeout in between) are generated too and their mouse events judged the same way — the modifiers are the report's own bits — while what becomes of the ESC is left to C02/C03. hwheel_not_a_button: a wheel-left/right report (xterm codes 66/67, any modifiers and press state) yields no button; the oracle demands that such a report claims none of the statement's five masks (class mouse-hwheel-misreported).",
     note="Finding: X11 motion reports (x11-motion-as-wheel, x11-drag-loses-button); fix in fixes/C12-x11-offset.patch.",
 )
